@@ -2,6 +2,7 @@ import pathlib
 import os
 from typing import Optional, Sequence, Tuple
 
+from conductor.config import TASK_OUTPUT_DIR_SUFFIX
 from conductor.context import Context
 from conductor.errors import CombineOutputFileConflict
 from conductor.execution.handle import OperationExecutionHandle
@@ -55,6 +56,9 @@ class CombineOutputs(Operation):
                 # A link from an earlier run. It may be dangling by now (e.g.,
                 # when the version it led to has been removed), in which case
                 # `exists()` would be false.
+                if not _is_conductor_link(copy_into, dep_id, ctx):
+                    # Somebody else's link: do not overwrite it.
+                    raise CombineOutputFileConflict(output_file=str(copy_into))
                 copy_into.unlink()
             elif copy_into.exists():
                 # Unexpected - it should be a symlink.
@@ -67,3 +71,25 @@ class CombineOutputs(Operation):
     def finish_execution(self, handle: OperationExecutionHandle, ctx: Context) -> None:
         # Nothing special needs to be done here.
         pass
+
+
+def _is_conductor_link(
+    link: pathlib.Path, dep_id: TaskIdentifier, ctx: Context
+) -> bool:
+    """
+    Returns true iff `link` looks like a link that `CombineOutputs` creates for
+    the dependency `dep_id`: it leads to a task output directory of that name
+    (`<name>.task` or `<name>.task.<version>`) inside the project's output
+    directory.
+    """
+    target = pathlib.Path(
+        os.path.normpath(os.path.join(str(link.parent), os.readlink(str(link))))
+    )
+    try:
+        target.relative_to(ctx.output_path)
+    except ValueError:
+        return False
+    dir_name = dep_id.name + TASK_OUTPUT_DIR_SUFFIX
+    return target != ctx.output_path and (
+        target.name == dir_name or target.name.startswith(dir_name + ".")
+    )
